@@ -104,7 +104,7 @@ pub trait Prop: Sync {
     fn components(&self) -> serde_json::Value {
         serde_json::json!({
             "real": ["kanata-parser (config text -> layout)", "kanata-keyberon Layout state machine", "Kanata::handle_input_event / tick_ms / can_block_update_idle_waiting (src/kanata/*.rs)", "zippychord, sequences, overrides, key-repeat, dynamic macros"],
-            "stub": ["KbdOut = the project's own simulated_output recorder (no uinput)", "input device (events are fed through Kanata::handle_input_event)", "TCP socket (the op calls the same functions the socket handler calls)", "std::thread::sleep / instant::Instant -> virtual clock (hook H1)"]
+            "stub": ["KbdOut = the project's own simulated_output recorder (no uinput)", "input device (events are fed through Kanata::handle_input_event)", "TCP socket (the op calls the same functions the socket handler calls)", "std::thread::sleep / instant::Instant -> virtual clock (hook H1)", "processing-loop thread: replaced by the stepper's loop protocol, except in the executor-B populations (C07 'loop', C18 'tcp-race') where Kanata::start_processing_loop itself runs as a real thread under the seeded scheduler"]
         })
     }
 }
